@@ -44,11 +44,17 @@ def fresh(base):
 
 
 def main():
-    prop, which = sys.argv[1], sys.argv[2]
-    out_dir = "/tmp/seed/%s-out" % prop
-    patch = os.path.join(out_dir, "%s.patch.diff" % which)
-    demo = os.path.join(out_dir, "%s.demo.diff" % which)
-    notes = os.path.join(out_dir, "%s.notes.md" % which)
+    if sys.argv[1] == "--reverify":
+        # re-confirm an already filed seed (seeded/<Cnn-X>/) against /repo's current tree
+        prop, which = sys.argv[2].split("-")
+        out_dir = os.path.join(VERIF, "seeded", sys.argv[2])
+        patch, demo, notes = os.path.join(out_dir, "patch.diff"), os.path.join(out_dir, "demo.diff"), os.path.join(out_dir, "notes.md")
+    else:
+        prop, which = sys.argv[1], sys.argv[2]
+        out_dir = "/tmp/seed/%s-out" % prop
+        patch = os.path.join(out_dir, "%s.patch.diff" % which)
+        demo = os.path.join(out_dir, "%s.demo.diff" % which)
+        notes = os.path.join(out_dir, "%s.notes.md" % which)
     res = {"property": prop, "variant": which, "ok": False}
     if not (os.path.exists(patch) and os.path.exists(demo)):
         res["error"] = "deliverables missing"
@@ -77,7 +83,7 @@ def main():
         props = [c["property_id"] for c in m["checks"]]
         caught = {}
         for p in props:
-            rc, out = sh([os.path.join(VERIF, "check"), p, "--tier", "quick"], VERIF, {"RWS_REPO": repo, "RWS_EVIDENCE_DIR": evdir})
+            rc, out = sh([os.path.join(VERIF, "check"), p, "--tier", "quick"], VERIF, {"RWS_REPO": repo, "RWS_EVIDENCE_DIR": evdir, "RWS_CACHE_DIR": os.path.join(base, "cache"), "RWS_NO_THOROUGH": "1"})
             v = [l for l in out.splitlines() if l.startswith("VIOLATION")]
             keys = [l.strip() for l in out.splitlines() if l.strip().startswith("rule=")]
             if rc != 0:
